@@ -222,6 +222,17 @@ void _ZNSt7__cxx1119basic_ostringstreamIcSt11char_traitsIcESaIcEED1Ev(void *o) {
 #ifdef DECL__ZNKSt7__cxx1119basic_ostringstreamIcSt11char_traitsIcESaIcEE3strEv
 void _ZNKSt7__cxx1119basic_ostringstreamIcSt11char_traitsIcESaIcEE3strEv(struct class_std____cxx11__basic_string *sret, void *o) { vs_make_n(sret, os_buf, os_len); }
 #endif
+#elif defined(HAVE_class_std____cxx11__basic_string)
+/* without capture: an ostringstream is an unobserved stream whose str() is an arbitrary short string */
+#ifdef DECL__ZNSt7__cxx1119basic_ostringstreamIcSt11char_traitsIcESaIcEEC1Ev
+void _ZNSt7__cxx1119basic_ostringstreamIcSt11char_traitsIcESaIcEEC1Ev(void *o) { }
+#endif
+#ifdef DECL__ZNSt7__cxx1119basic_ostringstreamIcSt11char_traitsIcESaIcEED1Ev
+void _ZNSt7__cxx1119basic_ostringstreamIcSt11char_traitsIcESaIcEED1Ev(void *o) { }
+#endif
+#ifdef DECL__ZNKSt7__cxx1119basic_ostringstreamIcSt11char_traitsIcESaIcEE3strEv
+void _ZNKSt7__cxx1119basic_ostringstreamIcSt11char_traitsIcESaIcEE3strEv(struct class_std____cxx11__basic_string *sret, void *o) { vs_nondet(sret, 2); }
+#endif
 #endif
 /* ---- the standard stream objects: an Itanium-ABI vptr whose vbase-offset slot (index -3) locates basic_ios ---- */
 #ifndef VERIF_NATIVE
